@@ -77,8 +77,10 @@ example : ¬ Writable (Str.ofString "$ORIGIN/../lib") ∧ ¬ Writable (Str.ofStr
   decide
 
 /-- **`--force`, repaired tree (D9).**  After any sequence of table actions (`envSet`, `envPrepend`/`envAppend`,
-`envUnset`, each in its own direction, with or without `--force`) started from the caller's environment `base`,
-the emitted text evaluated *from `base`* yields the computed environment. -/
+`envUnset`, `addAlias`, each in its own direction, with or without `--force`) interleaved with `pushStack("env")` /
+`popStack("env")` / `dropStack("env")` in any way (optional and nested setups, failed ones rolled back — what `--force`
+made `oldEnviron` forget stays forgotten) started from the caller's environment `base`, the emitted text evaluated
+*from `base`* yields the computed environment. -/
 theorem C05_force_roundtrip (acts : List Act) (base : Env)
     (hbase : ∀ p ∈ base, isIdent p.1 = true)
     (hnew : ∀ p ∈ (runActs false acts base).cur, isIdent p.1 = true)
@@ -90,6 +92,20 @@ theorem C05_force_roundtrip (acts : List Act) (base : Env)
       SameEnv e (runActs false acts base).cur := by
   have := roundtrip_tracks _ base _ (tracks_runActs acts base) hbase hnew hdict halpha hprot false
   simpa using this
+
+/-- Non-vacuity with a rolled-back optional setup under `--force`: `B` set; then, inside push … pop, `A` changed and
+`PATH` prepended — thrown away; the text exports `B`, re-exports the forgotten `A` and `PATH` with their old values. -/
+example :
+    let base : Env := [(Str.ofString "A", Str.ofString "1"), (Str.ofString "PATH", Str.ofString "/bin")]
+    let s := runActs false [.envSet true true (Str.ofString "B") (Str.ofString "b b"), .push,
+                            .envSet true true (Str.ofString "A") (Str.ofString "2"),
+                            .path true (Str.ofString "PATH") (Str.ofString "/opt/my prod/bin:/bin"), .pop] base
+    s.cur = base ++ [(Str.ofString "B", Str.ofString "b b")] ∧
+      emitText s.old s.cur = Str.ofString "export A=1;
+export PATH=/bin;
+export B='b b'" ∧
+      shEval base (emitText s.old s.cur) = some (base ++ [(Str.ofString "B", Str.ofString "b b")]) := by
+  decide
 
 /-- Non-vacuity and the repaired behaviour on the D9 input: `unsetup --force` of a product that `envSet`s `A`. -/
 example :
